@@ -34,7 +34,8 @@ TEXTS = {
            "(* ééé \u20ac\u2122 *) s := 'ü\u2013'; a := c + 1;\nEND_FUNCTION_BLOCK\n"),
     "l1": ("FUNCTION_BLOCK FB_L1\nVAR a : INT; b : INT; END_VAR\n(* été *) a := b ? 1;\nEND_FUNCTION_BLOCK\n"),
 }
-ENC_DISK = {"dirof": {"v1": "dA", "s1": "dA", "l1": "dA"}, "classof": {"v1": "V", "s1": "S", "l1": "L"}, "provider": {},
+# s1 has a name without the usual extension: `check <directory>` reads every entry of the directory, whatever it is called
+ENC_DISK = {"dirof": {"v1": "dA", "s1": "dA", "l1": "dA"}, "classof": {"v1": "V", "s1": "S", "l1": "L"}, "provider": {}, "ext": {"s1": ".exp"},
             "dirs": ["dA"], "baddirs": []}
 
 C1 = {0x81, 0x8d, 0x8f, 0x90, 0x9d}
